@@ -23,7 +23,10 @@ MANIFEST = {
 
 RULE = ("corpus: one witness per recorded finding; adversarial: 32 hand-written naming/shape projects x 2 modes; positions: every "
         "(site in param/return/field/channel/event) x (18 constructor contexts of projgen.CONTEXTS) x (struct|enum leaf) x 2 modes, "
-        "exhaustively; random: projgen graph projects with events, channels, enums, type mappings, 70% clean contexts / 30% wild, x 2 modes; "
+        "exhaustively; crossfile: multi-file projects in which every root type (per root kind: parameter / return / channel message / event payload "
+        "through a helper fn, a command, a struct literal / emit_to) and every dependency is defined in another file than the function or type that "
+        "mentions it - 33-case matrix + 40 (quick) / 400 (thorough) random ones, x 2 modes, each run in 4 (quick) / 16 (thorough) fresh processes "
+        "(hash orders), a failure in any run counts; random: 600 (quick) / 6000 (thorough) projgen graph projects with events, channels, enums, type mappings, 70% clean contexts / 30% wild, x 2 modes; "
         "atp: add_types_prefix through the real Tera filter on every Rust type of depth <= 2 (quick) / 3 (thorough) over 8 constructors and "
         "3 leaves, compared with the shape-level transcription. A case is non-trivial when it declares at least one custom type; "
         "distinct = distinct (project, mode) pairs")
@@ -67,54 +70,75 @@ def canon_report(rep):
             "index_ambiguous": sorted(set(amb)), "import_decl_conflicts": sorted(set(conf))}
 
 
-def evaluate(jobs, stream=""):
-    """jobs: list of (label, case, mode). Returns Outcomes."""
-    impl = vlib.pmap(run_impl, [(c, m) for _, c, m in jobs])
-    judge_in, model_in = [], []
-    for (label, case, mode), r in zip(jobs, impl):
-        fs = r["files"]
-        judge_in.append(sx([[fs[n]] if n in fs else [] for n in FILES]))
-        model_in.append(sx(G.model_sx(case, mode)))
+def judge_one(r, irep, mrep, broken):
+    """One run of the real CLI against the model's prediction: (ok, corr, why)."""
+    generated = r["status"] == 0 and "types.ts" in r["files"]
+    ok = generated and irep["closed"] and irep["nodup"]
+    if broken:
+        return ok, not ok, "model: some emitted type is not a type; predicts only that the oracle fails"
+    same = all(irep[k] == mrep[k] for k in ("files", "closed", "nodup", "index_ambiguous", "import_decl_conflicts"))
+    corr = generated and same
+    return ok, corr, (None if corr else "summaries differ")
+
+
+def evaluate(jobs, reps=1):
+    """jobs: list of (label, case, mode). Each job is run `reps` times, every run in a fresh
+    process of the real CLI (fresh hash seeds, hence fresh iteration orders of the file cache and of
+    every HashMap/HashSet); the property must hold and the model must be matched in EVERY run.
+    The reported observation is that of the first failing run. Returns Outcomes."""
+    runs = [(c, m) for _, c, m in jobs for _ in range(reps)]
+    impl = vlib.pmap(run_impl, runs)
+    judge_in = [sx([[r["files"][n]] if n in r["files"] else [] for n in FILES]) for r in impl]
+    model_in = [sx(G.model_sx(case, mode)) for _, case, mode in jobs]
     judged = vlib.run_runner("c02-judge", judge_in)
     modeled = vlib.run_runner("c02-model", model_in)
     outs = []
-    for (label, case, mode), r, j, m in zip(jobs, impl, judged, modeled):
+    for k, ((label, case, mode), m) in enumerate(zip(jobs, modeled)):
         c = {"label": label, "mode": mode, "files": case["files"], "config": case.get("config", {})}
-        if j and j[0] == "runner-error" or m and m[0] == "runner-error":
-            raise vlib.BuildError("runner: %s %s" % (j[:2], m[:2]))
+        if reps > 1:
+            c["reps"] = reps
+        if m and m[0] == "runner-error":
+            raise vlib.BuildError("runner: %s" % (m[:2],))
         wf, cw, broken = (x == "true" for x in m[0:3])
         kfs = [x == "true" for x in m[3]]
         refs_declared = m[4] == "true"
         mrep = canon_report(m[5])
-        irep = canon_report(j)
         if not (wf and cw):
             raise AssertionError("generator produced a case outside the premise (wf=%s closed_world=%s): %s" % (wf, cw, label))
-        generated = r["status"] == 0 and "types.ts" in r["files"]
-        ok = generated and irep["closed"] and irep["nodup"]
         kf = next((KF_ORDER[i] for i, b in enumerate(kfs) if b), None)
-        if broken:
-            corr = not ok
-            why = "model: some emitted type is not a type; predicts only that the oracle fails"
-        else:
-            same = all(irep[k] == mrep[k] for k in ("files", "closed", "nodup", "index_ambiguous", "import_decl_conflicts"))
-            corr = generated and same
-            why = None if corr else "summaries differ"
-        detail = {"status": r["status"], "impl": {k: irep[k] for k in ("closed", "nodup", "unresolved", "dups", "index_ambiguous", "import_decl_conflicts")},
+        ok = corr = True
+        shown = None
+        nbad = 0
+        for r, j in zip(impl[k * reps:(k + 1) * reps], judged[k * reps:(k + 1) * reps]):
+            if j and j[0] == "runner-error":
+                raise vlib.BuildError("runner: %s" % (j[:2],))
+            irep = canon_report(j)
+            ok1, corr1, why1 = judge_one(r, irep, mrep, broken)
+            if not (ok1 and corr1):
+                nbad += 1
+            if shown is None or (shown[2] and shown[3] and not (ok1 and corr1)):
+                shown = (r, irep, ok1, corr1, why1)
+            ok &= ok1
+            corr &= corr1
+        r, irep, _, corr1, why = shown
+        detail = {"status": r["status"], "impl": {x: irep[x] for x in ("closed", "nodup", "unresolved", "dups", "index_ambiguous", "import_decl_conflicts")},
                   "model": {"broken": broken, "kf": [KF_ORDER[i] for i, b in enumerate(kfs) if b], "refs_declared": refs_declared,
                             "closed": mrep["closed"], "nodup": mrep["nodup"], "unresolved": mrep["unresolved"], "dups": mrep["dups"]}}
+        if reps > 1:
+            detail["fresh_process_runs"] = reps
+            detail["runs_failing_or_disagreeing"] = nbad
         if why:
             detail["why"] = why
-        if not corr and not broken:
+        if not corr1 and not broken:
             detail["diff"] = [{"file": FILES[i], "impl": a, "model": b} for i, (a, b) in enumerate(zip(irep["files"], mrep["files"])) if a != b]
-        if not generated:
+        if r["status"] != 0 or "types.ts" not in r["files"]:
             detail["log"] = r["log"][-600:]
         # the unproved step, checked on the case: outside every class the model itself predicts a closed graph
         if kf is None and not broken and not (mrep["closed"] and mrep["nodup"]):
             corr = False
             detail["why"] = "model predicts a violation outside every recorded class (counterexample to C02_closed_world_full_statement)"
         nontrivial = any(it["kind"] in ("struct", "enum") for its in case["files"].values() for it in its)
-        o = Outcome(c, corr, ok, kf=kf, detail=detail, nontrivial=nontrivial)
-        outs.append(o)
+        outs.append(Outcome(c, corr, ok, kf=kf, detail=detail, nontrivial=nontrivial))
     return outs
 
 
@@ -183,6 +207,12 @@ def run(rep):
     rep.add("corpus", evaluate(corpus_jobs()), sample_count=1)
     rep.add("adversarial", evaluate(both(G.adversarial())))
     rep.add("positions", evaluate(both(G.position_matrix())))
+    reps = 4 if rep.tier == "quick" else 16
+    xf = G.crossfile_matrix()
+    nx = 40 if rep.tier == "quick" else 400
+    for i in range(nx):
+        xf.append(("crossfile-random-%d" % i, G.crossfile_random(rng)))
+    rep.add("crossfile", evaluate(both(xf), reps=reps))
     n = 600 if rep.tier == "quick" else 6000
     rnd, nwild = [], 0
     for i in range(n):
@@ -194,7 +224,7 @@ def run(rep):
     rep.add("atp", evaluate_atp(rep.tier))
     st = rep.streams
     rep.extra["input_distribution"] = {
-        "random_projects": n, "random_wild": nwild,
+        "random_projects": n, "random_wild": nwild, "crossfile_projects": len(xf), "fresh_process_runs_per_crossfile_case": reps,
         "in_known_class_by_stream": {k: v["in_known_class"] for k, v in st.items()},
         "cases_by_stream": {k: v["cases"] for k, v in st.items()},
         "known_finding_cases": dict(rep.kf_counts)}
@@ -220,7 +250,8 @@ def replay(rep, payload):
             obs = vlib.run_harness("c02-atp", cases)
             rep.add("atp", eval_atp_cases(cases, obs))
             continue
-        rep.add(it.get("stream") or "replay", evaluate([(c.get("label", "replay"), {"files": c["files"], "config": c.get("config", {})}, c["mode"])]))
+        rep.add(it.get("stream") or "replay", evaluate([(c.get("label", "replay"), {"files": c["files"], "config": c.get("config", {})}, c["mode"])],
+                                                         reps=max(16, 4 * int(c.get("reps", 1))) if c.get("reps") else 1))
 
 
 def eval_atp_cases(cases, obs):
